@@ -6,6 +6,7 @@ Value indices: 0..len(args)-1 are the block arguments (the last one is the outpu
 """
 from __future__ import annotations
 
+import copy
 import itertools
 
 WIDTHS = (8, 16, 32, 64)
@@ -260,6 +261,51 @@ def render_module(arg_types, body_lines, form="memref", shape="16", attrs="") ->
 
 def render_recognition(case, form="memref") -> str:
     return render_module(case["spec"]["args"], render_body_lines(case["spec"]), form)
+
+
+def gen_recognition_module(rng):
+    """Several generics in ONE module (one application of the pass): a canonical kernel body together with bodies of the same
+    argument types and op-kind sequence but another wiring, other mutations, repeats and bodies of other kernels, in any order.
+    Whatever the pass remembers from one generic must not leak into the next."""
+    kind = rng.choice(KERNEL_KINDS)
+    base = canonical(kind, canonical_types(rng, kind))
+    members = [("canonical:" + kind, base)]
+    for _ in range(rng.choice((1, 1, 2, 3))):
+        r = rng.random()
+        spec, fam = None, None
+        if r < 0.55:
+            for _ in range(20):
+                spec = random_wiring(rng, SHAPES[kind], list(base["args"]))
+                if spec is not None:
+                    fam = "sibling-wiring:" + kind
+                    break
+        elif r < 0.8:
+            for _ in range(8):
+                m, labels = mutate(rng, base, 1)
+                if labels and well_typed(m):
+                    spec, fam = m, "sibling-mutated:" + kind
+                    break
+        elif r < 0.9:
+            spec, fam = copy.deepcopy(base), "repeat:" + kind
+        if spec is None:
+            c = gen_recognition_case(rng)
+            spec, fam = c["spec"], "other:" + c["family"].split(":")[0]
+        members.append((fam, spec))
+    order = rng.random()
+    if order < 0.25:
+        rng.shuffle(members)
+    elif order < 0.4:
+        members.reverse()
+    return {"members": members, "family": "module:" + kind}
+
+
+def render_recognition_module(case, form="memref") -> str:
+    prods, gens = [], []
+    for i, (_fam, spec) in enumerate(case["members"]):
+        p, g = render_generic(spec["args"], render_body_lines(spec), form, prefix=f"m{i}x")
+        prods.append(p)
+        gens.append(g)
+    return "\n".join(prods + gens) + "\n"
 
 
 # ------------------------------------------------------------------------------------------------
